@@ -21,7 +21,10 @@ func runC09(c *mon.Ctx) {
 	case "mix":
 		c.Cases(func(i int, r *mon.Rand) { c09Mix(c, r) })
 	default:
-		c.Cases(func(i int, r *mon.Rand) { c09Round(c, r) })
+		c.Cases(func(i int, r *mon.Rand) {
+			c09Round(c, r)
+			c09BucketRace(c, r.Fork(77))
+		})
 	}
 }
 
@@ -402,4 +405,69 @@ func c09Mix(c *mon.Ctx, r *mon.Rand) {
 func c09KidSpec(k int) tally.ValueBuckets {
 	d := uint64(k) << 40
 	return tally.ValueBuckets{math.Float64frombits(math.Float64bits(10) + d), math.Float64frombits(math.Float64bits(20) - d)}
+}
+
+// c09BucketRace: on a fresh root, several goroutines released together each
+// make the first use of a histogram on a scope of their own, each with its
+// own bucket set, all colliding in the root-wide bucket cache (the cache is
+// empty, so all of them miss at the same moment). Every histogram must
+// deliver under its own bounds. Eight fresh roots per case.
+func c09BucketRace(c *mon.Ctx, r *mon.Rand) {
+	for it := 0; it < 8; it++ {
+		cached := r.Bool()
+		var rec *mon.Recorder
+		opts := tally.ScopeOptions{OmitCardinalityMetrics: true}
+		if cached {
+			cr := mon.NewCachedRec(true)
+			rec = cr.Recorder
+			opts.CachedReporter = cr
+		} else {
+			pr := mon.NewPlainRec(true)
+			rec = pr.Recorder
+			opts.Reporter = pr
+		}
+		root, _ := vNewRoot(opts, 0, uint(r.Range(0, 4)))
+		G := r.Range(2, 6)
+		desc := map[string]interface{}{"cached": cached, "goroutines": G, "what": "first use of histograms with colliding bucket sets on sibling scopes of a fresh root"}
+		var wg sync.WaitGroup
+		var ready int32
+		for g := 0; g < G; g++ {
+			wg.Add(1)
+			go func(g int) {
+				defer wg.Done()
+				defer func() { recover() }()
+				sc := root.SubScope(fmt.Sprintf("b%d", g))
+				sp := c09KidSpec(g + 1)
+				atomic.AddInt32(&ready, 1)
+				for atomic.LoadInt32(&ready) < int32(G) {
+				}
+				sc.Histogram("h", sp).RecordValue(11)
+			}(g)
+		}
+		wg.Wait()
+		tally.VerifReportPass(root)
+		log, _, _ := rec.Snapshot()
+		seen := make([]bool, G)
+		for _, ev := range log {
+			if ev.Kind != mon.EvHistV {
+				continue
+			}
+			var g int
+			if _, err := fmt.Sscanf(ev.Name, "b%d.h", &g); err != nil || g < 0 || g >= G {
+				continue
+			}
+			sp := c09KidSpec(g + 1)
+			seen[g] = true
+			// 11 lies between the two bounds of every set
+			if ev.Lo != sp[0] || ev.Hi != sp[1] || ev.I != 1 {
+				c.Violation("first-use-histogram-foreign-bounds", map[string]interface{}{"why": fmt.Sprintf("histogram %s created with %v delivered %d samples in bucket (%v,%v]", ev.Name, sp, ev.I, ev.Lo, ev.Hi), "case": desc})
+			}
+		}
+		for g := range seen {
+			if !seen[g] {
+				c.Violation("lost-first-use-sample", map[string]interface{}{"why": fmt.Sprintf("histogram b%d.h: nothing delivered", g), "case": desc})
+			}
+		}
+		c.Event("colliding-first-use-races", 1)
+	}
 }
